@@ -555,7 +555,16 @@ class RecipeGen:
             if rng.random() < 0.3:      # a substance listed twice: the amounts add up, as in Container(...)
                 sid, q0 = rng.choice(init)
                 init.insert(rng.randrange(len(init) + 1), (sid, dict(q0, v=gen.dec(float(q0['v']) * rng.choice([0.5, 1, 2]), 2))))
-            self.try_step({'op': 'create', 'name': n, 'init': init}, 'create:repeated' if len({s for s, _ in init}) < len(init) else None)
+            st = {'op': 'create', 'name': n, 'init': init}
+            tag = 'create:repeated' if len({s for s, _ in init}) < len(init) else None
+            if rng.random() < 0.4:
+                # a declared capacity: roomy, or (rarely) smaller than the listed contents -- performing the step then fails, and so must bake
+                from pyplate import Container
+                vol = Container('probe', initial_contents=[(E.subs[s], dsl.qty_str(q)) for s, q in init]).volume * 1e-6
+                over = rng.random() < 0.2
+                st['max'] = gen.pick_qty(rng, vol * (rng.choice([0.5, 0.8]) if over else rng.choice([1.5, 3])), 'L', sig=2)
+                tag = 'create:over-capacity' if over else 'create:capacity'
+            self.try_step(st, tag)
         elif k == 'solution':
             solute = g.sub(kind=('Solid',))
             solvent = g.sub(kind=('Liquid',))
